@@ -15,6 +15,16 @@ use netflow_parser::variable_versions::data_number::{DataNumber, FieldDataType, 
 use netflow_parser::variable_versions::ipfix::{Data, IPFixParser, OptionsData, OptionsTemplate, Template, TemplateField};
 use netflow_parser::variable_versions::ipfix_lookup::IPFixField;
 
+/// Exact model of ipfix::TemplateField::parse_as_field_value on the domain "plain (non
+/// enterprise) unsigned field with a fixed declared length <= 7".  Needed because the field
+/// specifier is read back from the heap: without it CBMC also explores the enterprise branch,
+/// whose `take(length)` + `to_vec()` has a symbolic size.
+pub fn pafv_fixed_unsigned_model<'a>(f: &TemplateField, i: &'a [u8]) -> nom::IResult<&'a [u8], FieldValue> {
+    assert!(f.enterprise_number.is_none());
+    assert!(f.field_length != 65535);
+    unsigned_kernel_model(i, FieldDataType::UnsignedDataNumber, f.field_length)
+}
+
 fn legal(l: u16) -> bool {
     l >= 1 && l <= 4
 }
@@ -209,7 +219,7 @@ fn d_ipfix_unknown_field_off() {
 /// D (small): one 2-byte field, 5-byte body: two records + 1 padding byte.
 #[kani::proof]
 #[kani::stub(core::fmt::write, no_fmt)]
-#[kani::stub(netflow_parser::variable_versions::data_number::FieldValue::from_field_type, unsigned_kernel_model)]
+#[kani::stub(netflow_parser::variable_versions::ipfix::TemplateField::parse_as_field_value, pafv_fixed_unsigned_model)]
 fn d_ipfix_two_records() {
     const N: usize = 5;
     let mut p = IPFixParser::default();
